@@ -348,12 +348,12 @@ def check_truthiness(ck, R):
 
 
 def check(ck):
-    check_truthiness(ck, "C17.R4")
+    ck.run(check_truthiness, ck, "C17.R4")
     from .c11 import check_versioned_key_codec
     ck.rule("C17.R6", "index entries' versioned keys are written as key#version and split at the last '#' (partition keys may contain '#')", 2)
-    check_versioned_key_codec(ck, "C17.R6")
-    check_protocol(ck, "C17.R1")
-    check_frame_rule(ck, "C17.R2")
-    check_overlay(ck, "C17.R3")
-    check_siblings(ck, "C17.R4")
-    check_index_tables(ck, "C17.R5")
+    ck.run(check_versioned_key_codec, ck, "C17.R6")
+    ck.run(check_protocol, ck, "C17.R1")
+    ck.run(check_frame_rule, ck, "C17.R2")
+    ck.run(check_overlay, ck, "C17.R3")
+    ck.run(check_siblings, ck, "C17.R4")
+    ck.run(check_index_tables, ck, "C17.R5")
